@@ -50,6 +50,9 @@ fn main() {
             e.random_histories::<Track, 8, 5>(random / 4);
             e.random_histories::<Track, 3, 16>(random / 4);
             e.random_histories::<Copyf, 8, 8>(random / 4);
+            e.big_pairs::<40, 70>(random / 20 + 4);
+            e.big_pairs::<70, 36>(random / 20 + 4);
+            e.big_pairs::<300, 300>(random / 200 + 2);
         }
     }
     cx.finish();
